@@ -32,6 +32,47 @@ impl Write for ChunkyWriter {
     }
 }
 
+/// Accepts `fail_after` bytes, then fails every write with `kind` (a peer that went away, a non-blocking sink, a write timeout).
+pub struct FailingWriter {
+    pub accepted: usize,
+    fail_after: usize,
+    kind: std::io::ErrorKind,
+}
+impl Write for FailingWriter {
+    fn write(&mut self, b: &[u8]) -> std::io::Result<usize> {
+        if self.accepted >= self.fail_after {
+            return Err(std::io::Error::new(self.kind, "harness: sink failed"));
+        }
+        let n = b.len().min(self.fail_after - self.accepted).min(4096);
+        self.accepted += n;
+        Ok(n)
+    }
+    fn flush(&mut self) -> std::io::Result<()> {
+        Ok(())
+    }
+}
+
+/// Writes everything, but every `every`-th call first reports EINTR (which `write_all` must retry without losing or repeating bytes).
+pub struct InterruptedWriter {
+    pub out: Vec<u8>,
+    calls: u32,
+    every: u32,
+}
+impl Write for InterruptedWriter {
+    fn write(&mut self, b: &[u8]) -> std::io::Result<usize> {
+        self.calls += 1;
+        if self.calls % self.every == 0 {
+            return Err(std::io::Error::new(std::io::ErrorKind::Interrupted, "harness: EINTR"));
+        }
+        let n = b.len().min(1 + (self.calls as usize * 37) % 3000);
+        self.out.extend_from_slice(&b[..n]);
+        Ok(n)
+    }
+    fn flush(&mut self) -> std::io::Result<()> {
+        Ok(())
+    }
+}
+
 pub struct ChunkyReader<'a> {
     data: &'a [u8],
     pos: usize,
@@ -172,8 +213,63 @@ pub fn run(args: &Args) -> Report {
             }
         };
 
+        // (2a) a failed emission first (sink fails after k bytes): it must report an error, and must leave nothing behind that
+        // changes what the SAME thread emits next — the regular routes below run right after it on this thread.
+        if case % 3 == 1 {
+            let total = 48 + ql + bl;
+            let k = match r.below(5) {
+                0 => 0,
+                1 => r.usize_below(48),
+                2 => 48 + r.usize_below(ql + 1),
+                _ => r.usize_below(total),
+            };
+            let kind = *r.pick(&[std::io::ErrorKind::BrokenPipe, std::io::ErrorKind::WouldBlock, std::io::ErrorKind::TimedOut, std::io::ErrorKind::ConnectionReset]);
+            let mut hh = hs.to_repe();
+            hh.spec = oracle::SPEC;
+            let which = r.below(5);
+            let xs: Vec<f64> = (0..bl / 8).map(|i| i as f64).collect();
+            let res = catching(|| {
+                let mut w = FailingWriter { accepted: 0, fail_after: k, kind };
+                let e = match which {
+                    0 => msg.write_to(&mut w).is_err(),
+                    1 => repe::write_message(&mut w, &msg).is_err(),
+                    2 => repe::write_message_streaming(&mut w, hh, &q, bl as u64, |w| w.write_all(&b)).is_err(),
+                    3 => repe::write_message_typed_slice(&mut w, hh, &q, &xs).is_err(),
+                    _ => repe::write_message_complex_slice(&mut w, hh, &q, &xs.iter().map(|x| repe::Complex { re: *x, im: 0.0 }).collect::<Vec<_>>()).is_err(),
+                };
+                (e, w.accepted)
+            });
+            rep.count("failed_emissions_before_the_routes", 1);
+            match res {
+                Ok((true, _)) => {}
+                Ok((false, acc)) if acc < total && which < 3 => rep.violation(format!("C01:failed-write-reported-ok:{which}"), format!("emission route {which} returned Ok although the sink failed after {acc} of {total} bytes ({kind:?})"), desc.clone()),
+                Ok(_) => {}
+                Err(p) => rep.violation(format!("C01:route:failed-sink:{which}:panic"), p, desc.clone()),
+            }
+        }
+
         let mut routes: Vec<(&'static str, Result<Vec<u8>, String>)> = vec![];
         routes.push(("to_vec", catching(|| msg.to_vec())));
+        if case % 4 == 2 {
+            let every = 2 + r.below(5) as u32;
+            routes.push(("write_message/EINTR", catching(|| {
+                let mut w = InterruptedWriter { out: vec![], calls: 0, every };
+                repe::write_message(&mut w, &msg).unwrap();
+                w.out
+            })));
+            routes.push(("write_message_streaming/EINTR", catching(|| {
+                let mut w = InterruptedWriter { out: vec![], calls: 0, every };
+                let mut hh = hs.to_repe();
+                hh.spec = oracle::SPEC;
+                repe::write_message_streaming(&mut w, hh, &q, bl as u64, |w| w.write_all(&b)).unwrap();
+                w.out
+            })));
+            routes.push(("write_to/EINTR", catching(|| {
+                let mut w = InterruptedWriter { out: vec![], calls: 0, every };
+                msg.write_to(&mut w).unwrap();
+                w.out
+            })));
+        }
         routes.push(("write_to", catching(|| {
             let mut w = ChunkyWriter::new(r.fork(1), 1 + r.usize_below(9000));
             msg.write_to(&mut w).unwrap();
